@@ -215,6 +215,9 @@ TDIV = z3.Function('tdiv', z3.IntSort(), z3.IntSort(), z3.IntSort())
 TREM = z3.Function('trem', z3.IntSort(), z3.IntSort(), z3.IntSort())
 
 
+FLOAT_TOKEN_NAMES = ('ParsedF64', 'BigToF64', 'PowiF64', 'F64Prod', 'F64Quot', 'IntToF64')
+
+
 class Machine:
     """executes ONE path, following `prefix` decisions then exploring first feasible alternative of new ones"""
 
@@ -238,6 +241,10 @@ class Machine:
         self.overrides = list(DEFAULT_OVERRIDES)
         self.witness = {}
         self._splits = {}
+        self.var_bounds = {}
+        self.aux_pc = set()
+        self.aux_vars = set()
+        self.aux_used = False
 
     def cur_tyenv(self):
         return self.frames[-1].tyenv if self.frames else {}
@@ -247,13 +254,39 @@ class Machine:
         self.fresh_n += 1
         return z3.Int('%s!%d' % (name, self.fresh_n))
 
-    def assume(self, c):
+    def assume(self, c, aux=False):
+        """aux: the constraint only defines fresh auxiliary variables (e.g. the digits of an integer already in the
+        path condition); a fresh-solver query may first be tried without it (dropping a premise is sound for unsat)"""
         if c is True:
             return
         if c is False:
             raise Infeasible()
+        if aux:
+            self.aux_pc.add(len(self.pc))
+        elif self.aux_vars and self._mentions_aux(c):
+            self.aux_used = True
         self.pc.append(c)
         self.solver.add(c)
+
+    def mark_aux(self, vs):
+        """vs: fresh variables constrained only by aux assumptions that are satisfiable for every valuation of the
+        other variables allowed by the rest of the path condition (a conservative extension)"""
+        self.aux_vars.update(v.get_id() for v in vs)
+
+    def _mentions_aux(self, t):
+        if not is_sym(t):
+            return False
+        seen, stack = set(), [t]
+        while stack:
+            e = stack.pop()
+            i = e.get_id()
+            if i in seen:
+                continue
+            seen.add(i)
+            if i in self.aux_vars:
+                return True
+            stack.extend(e.children())
+        return False
 
     def feasible(self, c):
         if c is True:
@@ -277,16 +310,27 @@ class Machine:
         """decide PC ∧ c from scratch (non-incremental: z3's preprocessing makes many queries that stall the
         incremental core easy); returns (result, model or None)"""
         self.stats.fresh_checks = getattr(self.stats, 'fresh_checks', 0) + 1
-        goals = list(self.pc) + ([c] if c is not True and c is not None else [])
-        for mk in (lambda: z3.Tactic('qflia').solver(), lambda: z3.Solver()):
+        extra = [c] if c is not True and c is not None else []
+        goals = list(self.pc) + extra
+        attempts = [(lambda: z3.Tactic('qflia').solver(), goals, self.fresh_timeout_ms), (lambda: z3.Solver(), goals, self.fresh_timeout_ms)]
+        if self.aux_pc and not want_model:
+            relaxed = [g for i, g in enumerate(self.pc) if i not in self.aux_pc] + extra
+            attempts.insert(0, (lambda: z3.Tactic('qflia').solver(), relaxed, self.fresh_timeout_ms))
+        for ai, (mk, gs, tmo) in enumerate(attempts):
             try:
                 s = mk()
-                s.set('timeout', self.fresh_timeout_ms)
-                s.add(goals)
+                s.set('timeout', tmo)
+                s.add(gs)
                 t = time.time()
                 r = s.check()
                 self.stats.solver_time += time.time() - t
                 self.stats.solver_checks += 1
+                if gs is not goals:
+                    if r == z3.unsat:            # unsat without the auxiliary definitions => unsat with them
+                        return r, None
+                    if r == z3.sat and not self.aux_used and not any(self._mentions_aux(e) for e in extra):
+                        return r, None           # conservative extension: the dropped definitions can always be satisfied
+                    continue
                 if r != z3.unknown:
                     return r, (s.model() if (want_model and r == z3.sat) else None)
             except z3.Z3Exception:
@@ -324,12 +368,82 @@ class Machine:
             return k
         return self.choose([cond_fn(i) for i in range(n)])
 
+    # ---- cheap interval reasoning for fresh digit / word variables (saves solver calls in character loops)
+    def set_bounds(self, var, lo, hi):
+        self.var_bounds[var.get_id()] = (lo, hi)
+
+    def interval(self, t, depth=0):
+        if not is_sym(t):
+            return (t, t) if isinstance(t, int) and not isinstance(t, bool) else None
+        if z3.is_int_value(t):
+            v = t.as_long()
+            return (v, v)
+        b = self.var_bounds.get(t.get_id())
+        if b is not None:
+            return b
+        if depth > 3 or not z3.is_app(t):
+            return None
+        k = t.decl().kind()
+        if k == z3.Z3_OP_ADD:
+            lo = hi = 0
+            for a in t.children():
+                i = self.interval(a, depth + 1)
+                if i is None:
+                    return None
+                lo, hi = lo + i[0], hi + i[1]
+            return (lo, hi)
+        if k == z3.Z3_OP_SUB and t.num_args() == 2:
+            a, c = self.interval(t.arg(0), depth + 1), self.interval(t.arg(1), depth + 1)
+            if a is None or c is None:
+                return None
+            return (a[0] - c[1], a[1] - c[0])
+        if k == z3.Z3_OP_MUL and t.num_args() == 2:
+            a, c = self.interval(t.arg(0), depth + 1), self.interval(t.arg(1), depth + 1)
+            if a is None or c is None:
+                return None
+            ps = [a[0] * c[0], a[0] * c[1], a[1] * c[0], a[1] * c[1]]
+            return (min(ps), max(ps))
+        return None
+
+    def quick_bool(self, b):
+        """True / False when intervals of bounded fresh variables already decide the comparison, else None"""
+        if not z3.is_app(b):
+            return None
+        k = b.decl().kind()
+        if k == z3.Z3_OP_NOT:
+            r = self.quick_bool(b.arg(0))
+            return None if r is None else (not r)
+        if b.num_args() != 2 or k not in (z3.Z3_OP_EQ, z3.Z3_OP_DISTINCT, z3.Z3_OP_LE, z3.Z3_OP_GE, z3.Z3_OP_LT, z3.Z3_OP_GT):
+            return None
+        if not self.var_bounds:
+            return None
+        l, r = self.interval(b.arg(0)), self.interval(b.arg(1))
+        if l is None or r is None:
+            return None
+        disjoint = l[1] < r[0] or r[1] < l[0]
+        if k == z3.Z3_OP_EQ:
+            return False if disjoint else (True if l[0] == l[1] == r[0] == r[1] else None)
+        if k == z3.Z3_OP_DISTINCT:
+            return True if disjoint else (False if l[0] == l[1] == r[0] == r[1] else None)
+        if k == z3.Z3_OP_LE:
+            return True if l[1] <= r[0] else (False if l[0] > r[1] else None)
+        if k == z3.Z3_OP_LT:
+            return True if l[1] < r[0] else (False if l[0] >= r[1] else None)
+        if k == z3.Z3_OP_GE:
+            return True if l[0] >= r[1] else (False if l[1] < r[0] else None)
+        if k == z3.Z3_OP_GT:
+            return True if l[0] > r[1] else (False if l[1] <= r[0] else None)
+        return None
+
     def branch_bool(self, b):
         """returns python bool for a possibly symbolic bool, forking"""
         if b is True or b is False:
             return b
         if isinstance(b, int) and not is_sym(b):
             return b != 0
+        q = self.quick_bool(b)
+        if q is not None:
+            return q
         b = z3.simplify(b)
         if z3.is_true(b):
             return True
@@ -337,6 +451,42 @@ class Machine:
             return False
         k = self.choose([b, z3.Not(b)])
         return k == 0
+
+    def few_values(self, x, limit):
+        """None when the integer term has more than `limit` feasible values on this path (bounded enumeration), else True"""
+        x = z3.simplify(x)
+        if z3.is_int_value(x):
+            return True
+        if len(self.decisions) < len(self.prefix):
+            return True            # replaying a recorded concretisation
+        self.solver.push()
+        try:
+            n = 0
+            while True:
+                if self.solver.check() != z3.sat:
+                    return True
+                v = self.solver.model().eval(x, model_completion=True)
+                self.solver.add(x != v)
+                n += 1
+                if n > limit:
+                    return None
+        finally:
+            self.solver.pop()
+
+    def single_valued(self, x):
+        """True when the path condition pins the integer term to one value (two solver calls)"""
+        x = z3.simplify(x)
+        if z3.is_int_value(x):
+            return True
+        self.solver.push()
+        try:
+            if self.solver.check() != z3.sat:
+                return True
+            v = self.solver.model().eval(x, model_completion=True)
+            self.solver.add(x != v)
+            return self.solver.check() == z3.unsat
+        finally:
+            self.solver.pop()
 
     def concretize(self, x, lo=None, hi=None, limit=4096):
         """fork over all feasible values of integer term x"""
@@ -552,6 +702,9 @@ class Machine:
             return 3.32192809488736234787031942948939018
         if re.match(r'^-?[0-9.]+(e[+-]?[0-9]+)?f(32|64)$', s, re.I):
             return float(s[:-3])
+        mi = re.match(r'^(?:(?:std|core)::)?(?:f32|f64)::(?:<impl f(?:32|64)>::)?(INFINITY|NEG_INFINITY|NAN)$', s)
+        if mi:
+            return {'INFINITY': float('inf'), 'NEG_INFINITY': float('-inf'), 'NAN': float('nan')}[mi.group(1)]
         mf = re.match(r'^(?:std|core)::(f32|f64)::consts::([A-Z0-9_]+)$', s)
         if mf:
             import math
@@ -668,7 +821,15 @@ class Machine:
                 return x
             if kind == 'IntToFloat':
                 if is_sym(x):
-                    x = self.concretize(x)
+                    # few feasible values (a bit length, a digit count): fork over them; otherwise `n as f64` is a
+                    # contract token (IEEE round-to-nearest of a symbolic integer)
+                    few = self.few_values(x, 130)
+                    if few is None:
+                        if ty.strip() != 'f64':
+                            raise Unsupported('symbolic integer as f32')
+                        from .summaries import IntToF64
+                        return IntToF64(x)
+                    x = self.concretize(x, limit=130)
                 if ty.strip() == 'f32':
                     import struct
                     return struct.unpack('<f', struct.pack('<f', float(x)))[0]
@@ -678,6 +839,9 @@ class Machine:
                     import struct
                     return struct.unpack('<f', struct.pack('<f', x))[0]
                 return x
+            if kind == 'FloatToInt' and type(x).__name__ == 'FloatV':
+                from .summaries import float_to_int
+                return float_to_int(self, x, ty.strip())
             if kind == 'FloatToInt':
                 lo, hi = INT_RANGE[ty.strip()]
                 if x != x:
@@ -735,10 +899,25 @@ class Machine:
             return hit[1], hit[2]
         q, r = self.fresh('pq'), self.fresh('pr')
         self.assume(z3.And(x == q * 2 ** k + r, r >= 0, r < 2 ** k, q >= 0))
+        self.set_bounds(r, 0, 2 ** k - 1)
         self._splits[key] = (x, q, r)
         return q, r
 
     def binop(self, op, x, y, dest_ty, opnd_ty):
+        if op in ('Eq', 'Ne', 'Lt', 'Le', 'Gt', 'Ge') and (type(x).__name__ in ('FloatV', 'IntToF64') or type(y).__name__ in ('FloatV', 'IntToF64')) \
+                and all(type(v).__name__ in ('FloatV', 'IntToF64', 'float') for v in (x, y)):
+            from .summaries import float_cmp, float_eq, FloatV
+            if op in ('Eq', 'Ne') and isinstance(x, (FloatV, float)) and isinstance(y, (FloatV, float)) and not (isinstance(x, FloatV) and isinstance(y, FloatV)):
+                pass        # handled below by the structural float_eq (no fork needed)
+            else:
+                return float_cmp(self, op, x, y)
+        if type(x).__name__ in FLOAT_TOKEN_NAMES or type(y).__name__ in FLOAT_TOKEN_NAMES:
+            from .summaries import F64Prod, F64Quot
+            if op == 'Mul':
+                return F64Prod(x, y)
+            if op == 'Div':
+                return F64Quot(x, y)
+            raise Unsupported('float binop %s on a float contract token' % op)
         if type(x).__name__ == 'FloatV' or type(y).__name__ == 'FloatV':
             from .summaries import float_eq
             fty = (x if type(x).__name__ == 'FloatV' else y).ty
